@@ -1,7 +1,7 @@
 """C07: HTTP/EVENT message parsing is independent of stream segmentation."""
 import z3
 
-from pyvc.api import contract, LoopInv, Int, Bool, Bytes, ByteArray, Str, ListOf, TupleOf, implies, sub
+from pyvc.api import contract, LoopInv, Int, Bool, Bytes, ByteArray, Str, ListOf, TupleOf, implies, sub, split_count, split_part
 from pyvc.values import SObj, SInt, SBytes, SSeq
 from pyvc import ops
 
@@ -192,6 +192,44 @@ def _hdr_inv(self, pos, R, part, state0):
     )
 
 
+def _hdr_step_line(self, head, pos__head):
+    """ONE arbitrary iteration consumes exactly the first line of the buffer and its CRLF"""
+    raw0 = head._raw_response
+    return self._raw_response == sub(raw0, pos__head + 2, len(raw0) - pos__head - 2) and pos__head == raw0.find(CRLF) and pos__head >= 0
+
+
+def _hdr_step_status(self, head, pos__head):
+    """in the pre-status state the line is cut at the first two spaces: version, status code, reason"""
+    line = sub(head._raw_response, 0, pos__head)
+    return head._state != PRE or (
+        split_count(line, b" ", 2) == 3
+        and self._state == HEADERS
+        and self.version == split_part(line, b" ", 2, 0).decode()
+        and self.code == int(split_part(line, b" ", 2, 1))
+        and self.reason == split_part(line, b" ", 2, 2).decode()
+        and self.headers == head.headers
+        and self._is_chunked == head._is_chunked
+        and self._content_length == head._content_length
+    )
+
+
+def _hdr_step_header(self, head, pos__head):
+    """in the header state a non-empty line adds exactly one header (name title-cased, both sides stripped), in order;
+    Transfer-Encoding: chunked and Content-Length set the framing; the empty line ends the headers"""
+    line = sub(head._raw_response, 0, pos__head)
+    name = split_part(line, b":", 1, 0).decode().strip().title()
+    value = split_part(line, b":", 1, 1).decode().strip()
+    unchanged = self._is_chunked == head._is_chunked and self._content_length == head._content_length
+    blank = self._state == BODY and self.headers == head.headers and unchanged
+    header = (
+        self._state == HEADERS
+        and self.headers == head.headers + [(name, value)]
+        and self._is_chunked == (head._is_chunked or (name == "Transfer-Encoding" and value == "chunked"))
+        and self._content_length == (int(value) if name == "Content-Length" else head._content_length)
+    )
+    return head._state != HEADERS or (blank if len(line) == 0 else header)
+
+
 def _hdr_setup(it):
     st = [PRE, HEADERS][it.ctx.choose([0, 1])]
     o = _resp(it, state=st)
@@ -233,7 +271,7 @@ class HeaderPhase:
         return self._state >= BODY or len(result) == 0
 
     ensures = [no_complete_line_left, buffer_is_a_suffix, state_only_advances, nothing_without_a_line, nothing_returned_before_the_end]
-    loops = {0: LoopInv(_hdr_inv), 1: LoopInv(_chunk_inv)}
+    loops = {0: LoopInv(_hdr_inv, step=[_hdr_step_line, _hdr_step_status, _hdr_step_header]), 1: LoopInv(_chunk_inv)}
 
 
 # ------------------------------------------------------------------------------------------------- bounded stand-in / replay
@@ -263,3 +301,24 @@ HeaderPhase.bound_note = (
 for _k in list(globals().values()):
     if isinstance(_k, type) and getattr(_k, "prop", None) == "C07":
         _k.replay = staticmethod(_native_replay)
+
+
+# ------------------------------------------------------------------------------------------------- chunked: segmentation lemma
+
+
+@contract("lemmas.http:lemma_dechunk_merge", prop="C07", modular=True)
+class LemmaDechunkMerge:
+    """segmentation independence of the chunked reading specification (with ChunkedBody - the code equals that
+    specification on buffer + read - this is: parse(a); parse(b) and parse(a + b) consume the same chunks)"""
+
+    params = {"body": Bytes, "x": Bytes, "b": Bytes}
+    raises = {}
+
+    def merge(body, x, b):
+        d = dechunk(body, x)
+        return dechunk(body, x + b) == ((d[0], d[1] + b, True) if d[2] else dechunk(d[0], d[1] + b))
+
+    ensures = [merge]
+
+    def decreases(x):
+        return len(x)
